@@ -94,6 +94,9 @@ def sweep_task(task):
                 if src == "epoch" and sp in NAMED and f.endswith("T00:00:00"):
                     # an epoch value is a date-time: calendar names print the time too
                     f = f[:-9]
+                elif src == "epoch" and sp in ("ldn", "mdn") and f.endswith(".000000"):
+                    # ... and day numbers print the (zero) fraction of the day, as jdn always does
+                    f = f[:-7]
                 if f in exp:
                     sh.ok("conv", (src, sp, dcl))
                 else:
